@@ -866,6 +866,80 @@ fn batch3(s: &mut Session, rng: &mut Rng, scale: u64) {
     }
 }
 
+// ---------------------------------------------------------------- batch 4: both sides of the rejection guards
+
+/// `resolve_coords_len` through `SimpleGlyph::points()` (model: resolveCoordsLen + the length test of
+/// points_impl) and `read_points_fast` (no-trap oracle): `tail` = flag and coordinate bytes of a glyph with
+/// `total` points
+fn points_case(s: &mut Session, total: u16, tail: &[u8]) {
+    use read_fonts::tables::glyf::{PointFlags, SimpleGlyph};
+    use read_fonts::types::Point;
+    let rec = crate::glyfhostile::simple(&[total - 1], 0, &[], tail);
+    let mut req = format!("glyf.points {total} {}", tail.len());
+    for b in tail {
+        req.push_str(&format!(" {b}"));
+    }
+    k(s, "glyf.points", req.clone(), || {
+        let g = SimpleGlyph::read(FontData::new(&rec)).unwrap();
+        g.points().count()
+    });
+    let out = run_catch(|| {
+        let g = SimpleGlyph::read(FontData::new(&rec)).unwrap();
+        let n = g.num_points();
+        let mut pts = vec![Point::<i32>::default(); n];
+        let mut fl = vec![PointFlags::default(); n];
+        g.read_points_fast(&mut pts, &mut fl).is_ok()
+    });
+    let (ok, detail) = match out {
+        Outcome::Trap(m) => (false, m),
+        _ => (true, String::new()),
+    };
+    crate::capped_oracle(s, "no-trap:glyf.read_points_fast", ok, &req, &detail);
+}
+
+fn batch4(s: &mut Session, rng: &mut Rng, scale: u64) {
+    // the guard `repeats > flags_left` of resolve_coords_len, at -1 / 0 / +1 .. +255, with the repeat in
+    // first / middle / last position, for every flag class (coordinate widths)
+    let pad = [0u8; 1200];
+    for total in [1u16, 2, 3, 10, 255, 256, 257, 300] {
+        for prefix in [0u16, 1, total / 2, total.saturating_sub(1)] {
+            if prefix >= total {
+                continue;
+            }
+            let left = (total - prefix) as i32;
+            for over in [-2i32, -1, 0, 1, 2, 3, 100, 254, 255] {
+                let rep = left + over - 1;
+                if !(0..=255).contains(&rep) {
+                    continue;
+                }
+                for flag in [0x08u8, 0x09, 0x0B, 0x0F, 0x1B, 0x39, 0x3F, 0x2D] {
+                    let mut tail: Vec<u8> = (0..prefix).map(|i| [0x01u8, 0x31, 0x07, 0x37][i as usize % 4]).collect();
+                    tail.push(flag);
+                    tail.push(rep as u8);
+                    // what follows completes a short stream / is garbage after an overshoot
+                    tail.extend_from_slice(&[0x01, 0x01, 0x09, 0xFF, 0x08, 0x00]);
+                    tail.extend_from_slice(&pad);
+                    points_case(s, total, &tail);
+                    // the same stream cut right after the repeat byte and in the middle of the coordinates
+                    points_case(s, total, &tail[..prefix as usize + 2]);
+                    points_case(s, total, &tail[..(prefix as usize + 2 + total as usize).min(tail.len())]);
+                }
+            }
+        }
+    }
+    for _ in 0..600 * scale {
+        let total = *rng.pick(&[1u16, 2, 5, 17, 256, 600]);
+        let n = 1 + rng.below(12) as usize;
+        let mut tail: Vec<u8> = (0..n).map(|_| if rng.chance(1, 3) { (rng.next() as u8) | 0x08 } else { rng.next() as u8 }).collect();
+        let extra = rng.below(40) as usize;
+        tail.extend(rng.bytes(extra));
+        if rng.chance(1, 2) {
+            tail.extend_from_slice(&pad);
+        }
+        points_case(s, total, &tail);
+    }
+}
+
 fn rand_axis(rng: &mut Rng, g16: &[i16]) -> Axis {
     match rng.below(4) {
         0 => (*rng.pick(g16), *rng.pick(g16), *rng.pick(g16)),
@@ -1036,6 +1110,7 @@ fn run_inner(cfg: &Config, s: &mut Session) {
     }
     batch2(s, &mut rng, &g32, &g16, scale);
     batch3(s, &mut rng, scale);
+    batch4(s, &mut rng, scale);
     // worst-case accumulation: the maximal number of columns, extreme deltas, scalar 1.0
     for (n, d) in [(65535usize, i32::MIN), (65535, i32::MAX), (32767, i32::MIN), (32767, i32::MAX), (3, i32::MIN), (1, i32::MIN)] {
         let cols: Vec<(u16, i32)> = (0..n).map(|_| (0u16, d)).collect();
